@@ -104,7 +104,7 @@ add("C18", ["v_derive_arith"], ["older_", "fam_older_", "fam_packed_", "packed_t
 import native_run
 nreg = native_run.registry()
 P["C12"] = dict(level="proof", verus=["v_schemafaith"], kani=[], kani_thorough=[], native=sorted(n for n in nreg if "C12" in nreg[n]["props"]),
-    level_text="Partly proved, otherwise BOUNDED. Proved (Verus, real text of the hand-written WithSchema impls of bool/u8..u128/i8..i128/usize/isize, String, (), Option<T>, (T1,), (T1,T2), (T1,T2,T3) and Schema::new_tuple1/2/3): schema(version) returns a schema whose wire shape equals the shape the type declares, and a generic reader driven only by that shape parses exactly the bytes the V-codec-verified serializers write (lemma_faithful, generic in T: all values, all versions, every nesting of these containers). BOUNDED for everything else (Vec/Box/arrays/maps, whose impls use closures over the recursion context; library containers; derive output): an independent reader driven only by get_schema::<T>(v) parses the bytes of every small-scope value completely and finds no recursion markers -- executed natively on the real code (small-scope enumeration); CBMC does not terminate on schema construction.",
+    level_text="Partly proved, otherwise BOUNDED. Proved (Verus, real text of the hand-written WithSchema impls of bool/u8..u128/i8..i128/usize/isize, String, (), PhantomData<T>, Option<T>, Range<T>, (T1,), (T1,T2), (T1,T2,T3) and Schema::new_tuple1/2/3; Serialize/Deserialize of Range and PhantomData): schema(version) returns a schema whose wire shape equals the shape the type declares, and a generic reader driven only by that shape parses exactly the bytes the V-codec-verified serializers write (lemma_faithful, generic in T: all values, all versions, every nesting of these containers). BOUNDED for everything else (Vec/Box/arrays/maps, whose impls use closures over the recursion context; library containers; derive output): an independent reader driven only by get_schema::<T>(v) parses the bytes of every small-scope value completely and finds no recursion markers -- executed natively on the real code (small-scope enumeration); CBMC does not terminate on schema construction.",
     level_note="Bounded over definitions and over values (small domains per draw) outside the Verus unit. Five known findings (Result, HashMap/IndexMap guard, SocketAddr, BitVec/BitSet, enums with more than 256 variants). In the Verus unit WithSchemaContext is opaque and tuple field offsets / String layout hints are unspecified (not part of the wire shape).",
     technique="Verus contracts on the extracted WithSchema impls (shape_of(schema) == declared wire shape) + lemma_faithful over the V-codec serializer contracts; bounded stand-in elsewhere: native small-scope enumeration with an independent schema-driven reader",
     trusted_base=TB)
